@@ -93,7 +93,7 @@ pub fn run(ctx: &Ctx, reg: &Registry) -> i32 {
                 if !shard_of(si as u64 * n_cases + i, shard, n) {
                     continue;
                 }
-                let case = gen_case_h(reg, s, ctx.seed.wrapping_add(4040), i, Host { dup: true, nonfinite: false, noncanon: false, alias: false });
+                let case = gen_case_h(reg, s, ctx.seed.wrapping_add(4040), i, Host { dup: true, nonfinite: false, noncanon: true, alias: false });
                 if unique_keys(&case.payload) {
                     continue;
                 }
